@@ -401,3 +401,25 @@ func sortedKeys[V any](m map[string]V) []string {
 	sort.Strings(ks)
 	return ks
 }
+
+// File names of a collection. Concrete: the string operations of the code (used to verify the
+// naming functions). Abstract: uninterpreted, with the facts the DB-level proofs need; each
+// axiom is justified by a lemma obligation over the concrete definitions (paths-* lemmas), except
+// the two marked ASSUMED which restrict the configuration (see DESIGN.md assumption ledger).
+const preludePathsConcrete = `
+(define-fun cdirf ((root String) (item String)) String (str.++ root "/" item))
+(define-fun opathf ((dir String) (u String) (ext String) (gz Bool)) String (str.++ dir "/" u ext (ite gz ".gz" "")))
+(define-fun spathf ((dir String)) String (str.++ dir "/" "schema.json"))
+`
+
+const preludePathsAbstract = `
+(declare-fun cdirf (String String) String)
+(declare-fun opathf (String String String Bool) String)
+(declare-fun spathf (String) String)
+(assert (forall ((d String) (u String) (e String) (g Bool)) (! (= (opathf d u e g) (str.++ d "/" (str.++ u e (ite g ".gz" "")))) :pattern ((opathf d u e g)))))
+(assert (forall ((d String)) (! (= (spathf d) (str.++ d "/" "schema.json")) :pattern ((spathf d)))))
+(assert (forall ((d String) (u1 String) (u2 String) (e String) (g Bool)) (! (=> (= (opathf d u1 e g) (opathf d u2 e g)) (= u1 u2)) :pattern ((opathf d u1 e g) (opathf d u2 e g)))))
+(assert (forall ((d String) (u String) (e String)) (! (str.suffixof ".gz" (opathf d u e true)) :pattern ((opathf d u e true)))))
+(assert (forall ((d String) (u String) (e String)) (! (not (str.suffixof ".gz" (opathf d u e false))) :pattern ((opathf d u e false))))) ; ASSUMED: the extension does not end in .gz when compression is off
+(assert (forall ((d String) (u String) (e String) (g Bool)) (! (not (= (opathf d u e g) (spathf d))) :pattern ((opathf d u e g))))) ; ASSUMED: no object identifier makes an object file name equal to schema.json
+`
